@@ -31,6 +31,9 @@ InitObjs ==
          << MkBsp(<<K2>>, <<1>>, <<1>>, <<2>>, << RR(<<0,1,3>>), RR(<<1,-1,2>>) >>),
             MkNurbs(<<K3>>, <<1>>, <<2>>, <<2>>, << RR(<<1,2,0>>), RR(<<0,2,3>>) >>, <<One, Q(1,2), R(2)>>),
             MkBsp(<<K1>>, <<1>>, <<1>>, <<>>, << RR(<<2,-1>>) >>) >>
+    [] Universe = 4 ->       \* two curves (quick tier, depth 2)
+         << MkBsp(<<K2>>, <<1>>, <<1>>, <<2>>, << RR(<<0,1,3>>), RR(<<1,-1,2>>) >>),
+            MkNurbs(<<K3>>, <<1>>, <<2>>, <<>>, << RR(<<1,2,0>>) >>, <<One, Q(1,2), R(2)>>) >>
     [] Universe = 2 ->       \* a surface, a curve and a scalar NURBS curve
          << MkBsp(<<K1, K2>>, <<1,1>>, <<1,1>>, <<2>>, << RR(<<0,1,2,0,1,3>>), RR(<<0,0,1,2,2,2>>) >>),
             MkBsp(<<K3>>, <<1>>, <<2>>, <<2>>, << RR(<<1,0,-1>>), RR(<<0,2,1>>) >>),
